@@ -73,11 +73,13 @@ func runFamily(r *Reporter, prop string, runs []famRun, configs func(c *ProgCase
 func allCfgs(*ProgCase) []Config { return AllConfigs() }
 
 func generalRuns() []famRun {
-	imgs := `"two"`
 	if tier == "thorough" {
 		return []famRun{
-			{Module: "General", Consts: fmt.Sprintf(" MaxLen = 4\n MinLen = 1\n Fuel = 64\n ImageSet = %s\n Alphabet = \"full\"\n", imgs)},
-			{Module: "General", Consts: " MaxLen = 40\n MinLen = 8\n Fuel = 600\n ImageSet = \"three\"\n Alphabet = \"loop\"\n", Simulate: "num=4000", Depth: 45, SeedOff: 1},
+			{Module: "General", Consts: " MaxLen = 3\n MinLen = 1\n Fuel = 64\n ImageSet = \"two\"\n Alphabet = \"full\"\n"},
+			{Module: "General", Consts: " MaxLen = 4\n MinLen = 4\n Fuel = 64\n ImageSet = \"one\"\n Alphabet = \"alu\"\n"},
+			{Module: "General", Consts: " MaxLen = 4\n MinLen = 4\n Fuel = 64\n ImageSet = \"one\"\n Alphabet = \"mem\"\n"},
+			{Module: "General", Consts: " MaxLen = 4\n MinLen = 4\n Fuel = 64\n ImageSet = \"one\"\n Alphabet = \"ctl\"\n"},
+			{Module: "General", Consts: " MaxLen = 40\n MinLen = 8\n Fuel = 600\n ImageSet = \"three\"\n Alphabet = \"loop\"\n", Simulate: "num=3000", Depth: 45, SeedOff: 1},
 		}
 	}
 	return []famRun{
